@@ -26,3 +26,19 @@ pub use stream::{
     StreamSubscription,
 };
 pub use sync_metrics::{SessionPhase, SyncError};
+
+/// Verification-only access to crate-private stream building blocks.
+#[cfg(p2panda_p2panda_verif)]
+pub mod verif {
+    pub use super::ephemeral_stream::ephemeral_stream;
+    pub use super::sync_metrics::Aggregator;
+    pub use crate::forge::{Forge, OperationForge};
+
+    /// Feed one sync event into the aggregator (its return type is crate-private).
+    pub fn aggregator_process<E: p2panda_core::Extensions>(
+        aggregator: &mut Aggregator,
+        event: p2panda_sync::FromSync<p2panda_sync::protocols::TopicLogSyncEvent<E>>,
+    ) {
+        let _ = aggregator.process(event);
+    }
+}
